@@ -94,6 +94,9 @@ def run(tier, seed):
         # (5) the owner of a server stops it at the moment the host's shutdown request does
         gb_cases += [{"name": "sr%d" % i, "mux": i % 2 == 1, "pair": "inproc", "tls": "", "launch": "cmd", "sequential": True, "ests": [], "fam": "stop-race",
                       "stop_race": True} for i in range(4 if tier == "quick" else 24)]
+        # (6) several goroutines close one protocol client at once (all held at the entry of GRPCBroker.Close until the last arrives)
+        gb_cases += [{"name": "cr%d" % i, "mux": i % 2 == 1, "pair": "inproc", "tls": "", "launch": "cmd", "sequential": True, "ests": [], "fam": "close-race",
+                      "close_race": 2 + i % 3} for i in range(40 if tier == "quick" else 400)]
         obs_gb, crashes_gb = vlib.run_cases(b["drivers"], "TestGRPCBrokerCases", gb_cases, "c20gb", env={"VERIF_VPLUGIN": b["vplugin"], "VERIF_CASE_TIMEOUT_S": "60"},
                                             shards=min(len(gb_cases), 8), serial=True, timeout=600)
     finally:
